@@ -54,7 +54,9 @@ class CppViewHelper:
 				```
 			"""
 			param_default = BlockParser.break_separator(parameter, '=')
-			param, default_value = param_default if len(param_default) == 2 else (param_default[0], '')
+			param = param_default[0]
+			# XXX デフォルト値に含まれる`=`(比較演算子など)は区切りではないため、最初の区切り以降を全てデフォルト値とする
+			default_value = parameter[parameter.index('=', parameter.index(param) + len(param)) + 1:].strip() if len(param_default) > 1 else ''
 			type_symbol = BlockParser.break_separator(param, ' ')
 			symbol = type_symbol.pop()
 			var_type = ' '.join(type_symbol)
